@@ -63,6 +63,10 @@ static inline std::string gen_value(Src& s, int type, int tlen, int mode, uint32
             if (k == 4) return std::string(s.d(40) + 1, (char)0xFF);
             if (k == 5) return std::string(s.d(300) + 100, (char)('a' + s.d(26)));
             if (k == 6) { std::string v(4, 0); uint32_t L = s.d(70000); memcpy(&v[0], &L, 4); return v; }  // looks like a length word
+            if (k == 7 && s.d(48) == 0) {      // lengths around allocator / arena block sizes
+                static const uint32_t BASE[] = {65536, 4096, 65536, 131072};
+                return std::string(BASE[s.d(4)] - 8 + s.d(12), (char)(s.d(2) ? 0xFF : 'q'));
+            }
             size_t n = s.d(24);
             std::string v(n, 0);
             for (auto& c : v) c = (char)s.d(256);
